@@ -97,6 +97,10 @@ type dialResult struct {
 	done chan struct{}
 	conn *wsConnection
 	err  error
+
+	// callerGone reports that the dial failed while the context of the
+	// subscriber that ran it was already done.
+	callerGone bool
 }
 
 // NewWSTransport creates a new WSTransport. Connections are not closed when ctx
@@ -192,47 +196,59 @@ func (t *WSTransport) ConnCount() int {
 func (t *WSTransport) getOrDial(ctx context.Context, opts common.Options) (*wsConnection, error) {
 	key := connKey(opts)
 
-	t.mu.Lock()
+	for {
+		t.mu.Lock()
 
-	if conn, ok := t.conns[key]; ok && !conn.isClosed() {
-		t.mu.Unlock()
-		return conn, nil
-	}
-
-	if result, ok := t.dialing[key]; ok {
-		t.mu.Unlock()
-		select {
-		case <-ctx.Done():
-			return nil, ctx.Err()
-		case <-result.done:
+		if conn, ok := t.conns[key]; ok && !conn.isClosed() {
+			t.mu.Unlock()
+			return conn, nil
 		}
 
-		if result.err != nil {
-			return nil, result.err
+		if result, ok := t.dialing[key]; ok {
+			t.mu.Unlock()
+			select {
+			case <-ctx.Done():
+				return nil, ctx.Err()
+			case <-result.done:
+			}
+
+			if result.err != nil {
+				// The dial ran with the dialing subscriber's context. If it failed
+				// while that subscriber was going away, the failure says nothing
+				// about this subscriber: start over (dial ourselves or join a newer dial).
+				if result.callerGone && ctx.Err() == nil {
+					continue
+				}
+				return nil, result.err
+			}
+
+			return result.conn, nil
 		}
 
-		return result.conn, nil
+		result := &dialResult{done: make(chan struct{})}
+		t.dialing[key] = result
+		t.mu.Unlock()
+
+		conn, err := t.dial(ctx, key, opts)
+
+		result.conn = conn
+		result.err = err
+		result.callerGone = err != nil && ctx.Err() != nil
+
+		// Update the maps before waking the waiters so that a waiter that starts
+		// over never finds this finished dial again.
+		t.mu.Lock()
+		delete(t.dialing, key)
+
+		if err == nil {
+			t.conns[key] = conn
+		}
+		t.mu.Unlock()
+
+		close(result.done)
+
+		return conn, err
 	}
-
-	result := &dialResult{done: make(chan struct{})}
-	t.dialing[key] = result
-	t.mu.Unlock()
-
-	conn, err := t.dial(ctx, key, opts)
-
-	result.conn = conn
-	result.err = err
-	close(result.done)
-
-	t.mu.Lock()
-	delete(t.dialing, key)
-
-	if err == nil {
-		t.conns[key] = conn
-	}
-	t.mu.Unlock()
-
-	return conn, err
 }
 
 func (t *WSTransport) dial(ctx context.Context, key uint64, opts common.Options) (*wsConnection, error) {
